@@ -177,6 +177,7 @@ type ChainState struct {
 	Sup   [][]interface{} `json:"sup"`   // [cls, id, units]
 	Tr    [][]string      `json:"tr"`    // registered class traces (full paths)
 	Den   [][]string      `json:"den"`   // NFT classes (denoms) that exist on the chain
+	Q     *QueryView      `json:"q"`     // what the chain's gRPC query servers answer (harness/query.go)
 }
 
 func (r *Runner) splitChan(rest string) (string, string, bool) {
@@ -246,6 +247,7 @@ func (r *Runner) Project(x string) ChainState {
 	if r.Apps != nil {
 		r.Apps.project(x, &cs)
 	}
+	cs.Q = r.QueryProject(x, &cs)
 	return cs
 }
 
